@@ -16,25 +16,18 @@ theorem mergeEdges_lookups {g g' : Graph κ} {eid1 eid2 : Int} {d : Bool} (hr : 
   rw [removeEdge_ok] at hrem
   exact ⟨e1, e2, he1, hrem.1⟩
 
-/-- The side condition under which the node-merging case keeps the terminal clause of `is_consistent`:
-if the surviving upstream node is the terminal of direction `!d`, the absorbed node has no further upstream edges. -/
-def MergeTermOk (g : Graph κ) (eid1 eid2 : Int) (d : Bool) : Prop :=
-  ∀ edge1 edge2 N2, dGet? g.edges eid1 = some edge1 → dGet? g.edges eid2 = some edge2 →
-    edge1.nid (!d) ≠ edge2.nid (!d) → edge1.nid (!d) = g.term (!d) →
-    dGet? g.nodes (edge2.nid (!d)) = some N2 → (N2.eids (!d)).erase eid2 = []
-
 /-- **`merge_edges`**: on a structurally valid graph a successful merge of two different edges keeps structural
-validity (given `MergeTermOk`), the terminals and the denoted operator. -/
+validity, the terminals and the denoted operator. -/
 theorem mergeEdges_sem {g g' : Graph κ} (h : SValid g) {eid1 eid2 : Int} {d : Bool} (hne : eid1 ≠ eid2)
-    (hT : MergeTermOk g eid1 eid2 d) (hr : g.mergeEdges eid1 eid2 d = .ok g') :
+    (hr : g.mergeEdges eid1 eid2 d = .ok g') :
     SValid g' ∧ g'.nidTerminal = g.nidTerminal ∧ ∀ w : Word, g'.denF w = g.denF w := by
   obtain ⟨edge1, edge2, h1, h2⟩ := mergeEdges_lookups hr
   by_cases hpar : edge1.nid (!d) = edge2.nid (!d)
   · have hv := h.mergeEdges_par hr h1 h2 hpar hne
     obtain ⟨_, _, hterm, _, _⟩ := mergeEdges_par_spec h hr h1 h2 hpar hne
     exact ⟨hv, hterm, denF_of_denD h hv d hterm (fun w => denD_mergeEdges_par h hr h1 h2 hpar hne d w _)⟩
-  · have hv := h.mergeEdges_nodes hr h1 h2 hpar (fun ht N2 hN2 => hT edge1 edge2 N2 h1 h2 hpar ht hN2)
-    obtain ⟨N1, N2, _, _, _, _, hnt1, hnt2, _, _, _, hterm, _, _, _⟩ := mergeEdges_nodes_spec h hr h1 h2 hpar
+  · have hv := h.mergeEdges_nodes hr h1 h2 hpar
+    obtain ⟨N1, N2, _, _, _, _, hnt1, hnt2, _, _, _, _, hterm, _, _, _⟩ := mergeEdges_nodes_spec h hr h1 h2 hpar
     refine ⟨hv, hterm, denF_of_denD h hv d hterm (fun w => denD_mergeEdges_nodes h hr h1 h2 hpar w _ ?_)⟩
     cases d
     · simp only [Bool.not_false, Graph.term, if_true]; exact fun hc => hnt2 hc.symm
